@@ -28,7 +28,8 @@ def run(ctx):
     progs = chk.gen_prog_items(seed + 5, 1500 if thorough else 150)
     r2 = chk.check_texts(rules + progs)
     r3 = chk.check_signature(items + rules + progs)
-    for name, rr in (("grid", r), ("rules+prog", r2), ("sig-oracle", r3)):
+    r4 = chk.check_near_register_names()
+    for name, rr in (("grid", r), ("rules+prog", r2), ("sig-oracle", r3), ("names", r4)):
         total["evaluations"] += rr["evaluations"]
         total["disagreements"] += rr["disagreements"]
         total["violations"] += rr["violations"]
@@ -45,5 +46,10 @@ def run(ctx):
 
 def replay(obj):
     case = obj["case"]
+    if case.get("names"):
+        from harness import progrun
+        res, oplist, prog, pm, exc = chk.real_check(case["text"], progrun.make_settings(mode=case.get("mode", "")))
+        ok = res is not None and not exc and res[0].startswith("ok")
+        return None if ok else "the checker rejects a program that obeys the documented rules"
     r = chk.check_signature([case])
     return r["violations"][0]["what"] if r["violations"] else None
